@@ -45,18 +45,23 @@ def find_all_dependencies(
     """Dependencies contains class variables (because they can be "fake" ones as in
     dataclasses)"""
     if func not in cache:
-        dependencies = set(find_dependencies(func))
-        for attr in list(dependencies):
-            if not hasattr(cls, attr):
-                continue
-            member = getattr(cls, attr)
-            if isinstance(member, property):
-                member = member.fget
-            if callable(member):
-                dependencies.remove(attr)
-                if member in rec_guard:
+        # transitive closure over the methods/properties reached from func; only the
+        # complete result is cached (methods can call each other in a cycle)
+        dependencies: Set[str] = set()
+        visited = {func, *rec_guard}
+        todo = [func]
+        while todo:
+            for attr in find_dependencies(todo.pop()):
+                if not hasattr(cls, attr):
+                    dependencies.add(attr)
                     continue
-                rec_deps = find_all_dependencies(cls, member, {*rec_guard, member})
-                dependencies.update(rec_deps)
+                member = getattr(cls, attr)
+                if isinstance(member, property):
+                    member = member.fget
+                if not callable(member):
+                    dependencies.add(attr)
+                elif member not in visited:
+                    visited.add(member)
+                    todo.append(member)
         cache[func] = dependencies
     return cache[func]
